@@ -1,6 +1,7 @@
 import Rcgen.Proofs.Time
 import Rcgen.Model.Crl
 import Rcgen.Spec.Props
+import Rcgen.Model.Ctor
 /-
   C09 — every time value is encoded as the same instant in the form RFC 5280 requires.
   Model: `writeTime` (Model/Time.lean) = lib.rs `write_dt_utc_or_generalized` composed with
@@ -114,5 +115,27 @@ example : encode (writeTime ⟨2049, 12, 31, 23, 30, 0, 5, -3600⟩) =
     [24, 15, 50,48,53,48,48,49,48,49,48,48,51,48,48,48,90] := by decide
 example : 0 ≤ utcYear ⟨2049, 12, 31, 23, 30, 0, 5, -3600⟩ ∧
     utcYear ⟨2049, 12, 31, 23, 30, 0, 5, -3600⟩ ≤ 9999 := by decide
+
+/-- **`date_time_ymd`**: for every calendar date that exists (month 1..=12, a day the month has,
+    year within time's −9999..=9999) the value handed to the writers is midnight UTC of that
+    day — offset zero, no sub-second part, the instant `86400 · daysFromCivil y m d`; for every
+    other triple it is the announced panic -/
+theorem ymd_is_midnight_utc (y : Int) (m d : Nat) :
+    (∀ dt, dateTimeYmd y m d = some dt →
+      dt.epochSeconds = daysFromCivil y m d * 86400 ∧ dt.offset = 0 ∧ dt.nanos = 0 ∧
+      dt.year = y ∧ dt.month = m ∧ dt.day = d) ∧
+    ((dateTimeYmd y m d).isSome ↔
+      (-9999 ≤ y ∧ y ≤ 9999 ∧ 1 ≤ m ∧ m ≤ 12 ∧ 1 ≤ d ∧ d ≤ daysInMonth y m)) := by
+  constructor
+  · intro dt h
+    unfold dateTimeYmd at h
+    split at h
+    · cases h; simp [DateTime.epochSeconds]
+    · cases h
+  · unfold dateTimeYmd
+    split <;> simp_all
+
+example : (dateTimeYmd 2000 2 29).map DateTime.epochSeconds = some 951782400 := by decide
+example : dateTimeYmd 1900 2 29 = none := by decide
 
 end Rcgen.Theorems.C09
